@@ -1302,7 +1302,9 @@ struct AItem {
   int t = AI_DATA; int kind = 0; int label = 0, base = 0; int size = 0; int32_t disp = 0; int var = 0; int reg = 0; int cc = 0; int bit = 0;
   int tclass = TC_NEAR; int64_t toff = 0; uint64_t tabs = 0; int addrtype = 0; bool seg = false; bool store = false; uint64_t n = 0; int sec = 0; uint32_t aval = 0;
 };
-struct ASpec { int arch = A_X64; std::vector<SecSpec> secs; int nlabels = 0; std::vector<AItem> items; int extra = 0; /*0 none, 1 table pre-created + later section, 2 section added at the end*/ };
+struct ASpec { int arch = A_X64; std::vector<SecSpec> secs; int nlabels = 0; std::vector<AItem> items; int extra = 0; /*0 none, 1 table pre-created + later section, 2 section added at the end*/
+               int late = 0; /* n > 0: after a first flatten() the first n reference items are emitted once more into the section that
+                                is laid out last - at emit time the section offset is then known and non-zero */ };
 
 static uint64_t a_target(const AItem& it, uint64_t B, int arch, uint64_t site_off) {
   uint64_t t;
@@ -1501,6 +1503,31 @@ static void build_c04(const ASpec& P, uint64_t B, bool known, AResult& R) {
   }
   Error fe = code.flatten();
   if (fe != Error::kOk) { viol(fmt("c04:flatten-error:%s", errname(fe)), "flatten failed"); return; }
+  if (P.late > 0 && P.extra == 0 && !code.has_address_table_section() && code.section_count() >= 2) {
+    // late emission: the layout is known now; append to the section that is last in layout order (nothing moves) and lay
+    // out again. References with an absolute target emitted here see base + section offset + code offset at emit time.
+    Section* last = code.sections_by_order()[code.section_count() - 1];
+    int lastsec = -1;
+    for (size_t i = 0; i < secs.size(); i++) if (secs[i] == last) lastsec = int(i);
+    // (an empty section is not aligned by flatten(): it would move once it gets content - only sections that keep their offset)
+    if (lastsec > 0 && last->offset() != 0 && last->buffer_size() != 0 && ba->section(last) == Error::kOk) {
+      int done = 0;
+      for (size_t ii = 0; ii < P.items.size() && done < P.late; ii++) {
+        const AItem& it = P.items[ii];
+        if (it.t != AI_REF) continue;
+        if (!(it.kind == AK_JMPIMM || it.kind == AK_CALLIMM || it.kind == AK_JCCIMM || it.kind == AK_A64IMM || it.kind == AK_MEMABS || it.kind == AK_MOVABS)) continue;
+        ARef ar; ar.item = int(ii); ar.sec = lastsec; ar.pre = uint64_t(ba->offset());
+        ar.err = emit_c04_ref(ba, P.arch, it, a_target(it, B, P.arch, ar.pre), labs);
+        ar.post = uint64_t(ba->offset());
+        if (ar.err == Error::kOk && ar.post > ar.pre) ar.emitted.assign(last->data() + ar.pre, last->data() + ar.post);
+        R.refs.push_back(ar);
+        done++;
+        CNT["c04_late_references_after_flatten"]++;
+      }
+      fe = code.flatten();
+      if (fe != Error::kOk) { viol(fmt("c04:flatten-error:%s", errname(fe)), "second flatten failed"); return; }
+    }
+  }
   Error xe = code.resolve_cross_section_fixups();
   if (xe != Error::kOk || code.unresolved_fixup_count()) { viol("c04:unresolved-fixups", fmt("resolve=%s unresolved=%zu in a program without pc-relative label references", errname(xe), code.unresolved_fixup_count())); return; }
   R.size_before = code.code_size();
@@ -1717,6 +1744,7 @@ static std::vector<uint64_t> c04_bases(Rng& r, int arch, int nb) {
 
 static void run_c04(Rng& r, int nbases) {
   ASpec P = gen_c04(r);
+  if (r.below(3) == 0) P.late = int(1 + r.below(4));
   std::vector<uint64_t> bases = c04_bases(r, P.arch, nbases);
   CNT["c04_programs"]++; CNT[std::string("c04_programs_") + kArchName[P.arch]]++;
   for (uint64_t B : bases) {
